@@ -104,6 +104,19 @@ class PlainSubItem(Item):
 
 
 @symbol
+@dataclass
+class EqItem:
+    """Domain class with VALUE equality (two distinct objects with the same fields compare equal; not hashable)."""
+    a: Any = 0
+    b: Any = 0
+    c: Any = 0
+    name: str = field(default="", compare=False)
+
+    def __repr__(self):
+        return "EqItem<%s>" % self.name
+
+
+@symbol
 @dataclass(eq=False)
 class Made:
     """Class constructed by rule heads."""
